@@ -517,19 +517,22 @@ func verif_contract_DHCP4_AppendOptions(p DHCP4, options DHCP4Options, order []b
 	return n
 }
 
-func verif_inv_EncodeDHCP4_1(p DHCP4, n int) bool { return 240 <= n && n <= len(p) && n <= 921 }
-func verif_dec_EncodeDHCP4_1(n int) int           { return 300 - n }
-func verif_frame_EncodeDHCP4_1(p DHCP4) []byte    { return p[240:] }
+func verif_inv_EncodeDHCP4_1(p DHCP4, n int) bool {
+	return 240 <= n && n <= len(p) && n <= 921 && len(p) >= 300
+}
+func verif_dec_EncodeDHCP4_1(n int) int        { return 300 - n }
+func verif_frame_EncodeDHCP4_1(p DHCP4) []byte { return p[240:] }
 
 // EncodeDHCP4 writes a BOOTP/DHCP message over b[:cap(b)]: fixed header, magic cookie,
-// the options (message type forced to mt) and the End option, padded to 300 bytes.
-// It needs room for the staged options: cap(b) >= 922 covers every options set
-// satisfying VerifSpecOptionsSmall (a smaller buffer makes p[n] = End index out of range).
+// the options (message type forced to mt) and the End option, padded to 300 bytes. It is total
+// for ANY buffer: nil when the buffer is smaller than the 300-byte minimum or cannot hold the
+// options and the End marker (the handlers encode replies in place over the request, whose
+// buffer may end right behind the request).
 //
 //verif:props C03 C07 C08
 //verif:timeout 60s
 func verif_contract_EncodeDHCP4(b []byte, opcode DHCP4OpCode, mt DHCP4MessageType, chaddr net.HardwareAddr, ciaddr netip.Addr, yiaddr netip.Addr, xid []byte, broadcast bool, options DHCP4Options, order []byte) DHCP4 {
-	vRequires(cap(b) >= 922 && len(order) <= 32)
+	vRequires(len(order) <= 32)
 	// order (typically the parameter request list of the request being answered in place)
 	// may live in b itself, but then behind the fixed header: append() writes into its spare capacity
 	vRequires(order == nil || !vSameRegion(order, b) || vOffset(order, b) >= 240)
@@ -539,7 +542,16 @@ func verif_contract_EncodeDHCP4(b []byte, opcode DHCP4OpCode, mt DHCP4MessageTyp
 	vModifiesBytes(order[:cap(order)])
 	vModifiesMems("map[github.com/irai/packet.DHCP4OptionCode]")
 	r := EncodeDHCP4(b, opcode, mt, chaddr, ciaddr, yiaddr, xid, broadcast, options, order)
-	vEnsures(r != nil && vSameRegion(r, b) && vOffset(r, b) == 0 && 300 <= len(r) && len(r) <= 921)
+	if cap(b) < 300 {
+		vEnsures(r == nil)
+	}
+	if cap(b) >= 922 {
+		vEnsures(r != nil) // room for every options set within VerifSpecOptionsSmall
+	}
+	if r == nil {
+		return r
+	}
+	vEnsures(vSameRegion(r, b) && vOffset(r, b) == 0 && 300 <= len(r) && len(r) <= 921 && len(r) <= cap(b))
 	vEnsures(r[0] == byte(opcode) && r[1] == 1 && r[3] == 0)
 	vEnsures(chaddr != nil || r[2] == 6)
 	vEnsures(r[236] == 99 && r[237] == 130 && r[238] == 83 && r[239] == 99)
